@@ -274,6 +274,26 @@ where
     }
 }
 
+#[cfg(feature = "verif-hooks")]
+impl<R, IO> TcpTransport<R, IO>
+where
+    R: tower::Service<Box<str>, Response = SocketAddrs, Error = io::Error> + Send + Clone + 'static,
+    R::Future: Send + 'static,
+{
+    /// Verification hook: the order in which `connect` would attempt `addrs` for a URI with `port`
+    /// (the `set_port` + `connecting` + `pop` sequence of `connect`, without dialing).
+    pub fn verif_attempt_order(&self, addrs: Vec<SocketAddr>, port: u16) -> Vec<SocketAddr> {
+        let mut addrs = SocketAddrs::from_iter(addrs);
+        addrs.set_port(port);
+        let mut connecting = self.connecting(addrs);
+        let mut out = Vec::new();
+        while let Some(addr) = connecting.addresses.pop() {
+            out.push(addr);
+        }
+        out
+    }
+}
+
 /// Future which implements the happy eyeballs algorithm for connecting to a remote address.
 ///
 /// This follows the algorithm described in [RFC8305](https://tools.ietf.org/html/rfc8305),
